@@ -45,7 +45,54 @@ Proof.
   induction l as [|a l IH]; [reflexivity|]. cbn [existsb]. rewrite gen_is_same_domain_is_model. f_equal. exact IH.
 Qed.
 
+(* ------------------------------------------------------------ util.strings_differ *)
+Theorem gen_strings_differ_is_model a b : gen_strings_differ a b = strings_differ a b.
+Proof.
+  unfold gen_strings_differ, strings_differ, b2n.
+  rewrite ?(Nat.eqb_sym (length b) (length a)).
+  repeat match goal with
+         | |- context [Nat.eqb ?x ?y] => destruct (Nat.eqb x y) eqn:?
+         | |- context [bytes_eqb ?x ?y] => destruct (bytes_eqb x y) eqn:?
+         end; try reflexivity; try congruence.
+Qed.
+
+(* the regenerated comparison is byte equality *)
+Theorem gen_strings_differ_spec a b : gen_strings_differ a b = false <-> a = b.
+Proof. rewrite gen_strings_differ_is_model. apply strings_differ_spec. Qed.
+
+(* ------------------------------------------------------------ pyramid.session CookieSession.new/get_csrf_token *)
+Theorem gen_sess_is_model r st :
+  gen_sess_new r st = (r_fresh r, Some (r_fresh r)) /\
+  gen_sess_get r st = (session_token st (r_fresh r), session_store st (r_fresh r)).
+Proof. unfold gen_sess_get, gen_sess_new, session_token, session_store. destruct st; split; reflexivity. Qed.
+
+(* ------------------------------------------------------------ set_default_csrf_options -> DefaultCSRFOptions *)
+Theorem gen_directive_options_is_model d : gen_directive_options d = options_of_defaults d.
+Proof. destruct d as [rq tk hd sf co an cb]. destruct rq, tk, hd, sf, co, an; reflexivity. Qed.
+
+(* what csrf_view finds registered is the regenerated directive's object for the declared arguments *)
+Theorem gen_registered_options_from_directive c o :
+  registered_options c = Some o -> exists d, c_defaults c = Some d /\ o = gen_directive_options d.
+Proof.
+  unfold registered_options. destruct (c_defaults c) as [d|] eqn:Ed; [|discriminate].
+  destruct (negb (defaults_visible (c_defaults_first c))); [discriminate|].
+  intros H. injection H as <-. exists d. split; [reflexivity|].
+  rewrite gen_directive_options_is_model. unfold effective. rewrite Ed, defaults_always_visible. reflexivity.
+Qed.
+
+(* every argument of the directive reaches the option of the same name; an omitted one is the documented default *)
+Theorem gen_directive_options_fields d :
+  o_require (gen_directive_options d) = dflt (d_require d) true /\
+  o_token (gen_directive_options d) = dflt (d_token d) (Some s_token) /\
+  o_header (gen_directive_options d) = dflt (d_header d) (Some s_header) /\
+  o_safe (gen_directive_options d) = dflt (d_safe d) s_safe /\
+  o_check_origin (gen_directive_options d) = dflt (d_check_origin d) true /\
+  o_allow_no_origin (gen_directive_options d) = dflt (d_allow_no_origin d) false /\
+  o_callback (gen_directive_options d) = d_callback d.
+Proof. rewrite gen_directive_options_is_model. repeat split. Qed.
+
 (* the leaves stay folded *)
+Local Arguments gen_strings_differ : simpl never.
 Local Arguments urlparse_m : simpl never.
 Local Arguments aslist : simpl never.
 Local Arguments header_get : simpl never.
@@ -99,7 +146,7 @@ Theorem gen_policy_get_is_model r :
   gen_session_get r (r_stored r) = (expected_token Session r, store_after_get Session (r_stored r) (r_fresh r)) /\
   gen_cookie_get r (r_stored r) = (expected_token Cookie r, store_after_get Cookie (r_stored r) (r_fresh r)).
 Proof.
-  unfold gen_legacy_get, gen_session_get, gen_cookie_get, gen_session_new, gen_cookie_new,
+  unfold gen_legacy_get, gen_session_get, gen_cookie_get, gen_session_new, gen_cookie_new, gen_sess_get, gen_sess_new,
     expected_token, store_after_get, token_absent, session_token, session_store.
   destruct (r_stored r) as [[|x t]|]; repeat split.
 Qed.
@@ -110,8 +157,28 @@ Theorem gen_policy_check_is_model s r sup :
 Proof.
   destruct (gen_policy_get_is_model r) as (H1 & H2 & H3).
   unfold gen_policy_check, gen_legacy_check, gen_session_check, gen_cookie_check, policy_check.
-  destruct s; rewrite ?H1, ?H2, ?H3; split_all.
+  destruct s; rewrite ?H1, ?H2, ?H3;
+    repeat (simpl in *; try reflexivity; try congruence;
+            first [ match goal with |- context [gen_strings_differ ?a ?b] => rewrite (gen_strings_differ_is_model a b) end
+                  | split_step ]).
 Qed.
+
+(* ------------------------------------------------------------ the module-level API pyramid.csrf.get_csrf_token / new_csrf_token *)
+(* for ANY held token st (not only the one the request arrived with): get returns the held token and mints exactly
+   when none is held; new always installs the fresh token.  This is what the view body's action does to the store. *)
+Theorem gen_api_is_model s r st :
+  gen_api_get s r st = (or_empty (store_after_get s st (r_fresh r)), store_after_get s st (r_fresh r)) /\
+  gen_api_new s r st = (r_fresh r, Some (r_fresh r)).
+Proof.
+  unfold gen_api_get, gen_api_new, gen_policy_get, gen_policy_new, gen_legacy_get, gen_session_get, gen_cookie_get,
+    gen_legacy_new, gen_session_new, gen_cookie_new, gen_sess_get, gen_sess_new, store_after_get, token_absent.
+  destruct s; destruct st as [[|x t]|]; split; reflexivity.
+Qed.
+
+Corollary gen_api_body_store s r st :
+  snd (gen_api_get s r st) = body_store s AGet st (r_fresh r) /\
+  snd (gen_api_new s r st) = body_store s ANew st (r_fresh r).
+Proof. destruct (gen_api_is_model s r st) as [-> ->]. split; reflexivity. Qed.
 
 (* ------------------------------------------------------------ csrf.check_csrf_token *)
 Theorem gen_check_csrf_token_is_model pr s token header raises r :
